@@ -116,21 +116,10 @@ def misc_rules(ctx, repo, mod=None):
 
 def export_rule(ctx, repo, mod):
     ctx.rule('C09.6-export', 'every key exported by simutils.get_state is stored by both writers (documented omissions: Z80 memptr, fe) and exported without narrowing', floor=20)
-    su = repo.mod('simutils')
-    gs = su.func('get_state')
-    keys = []
-    for n in ast.walk(gs):
-        if isinstance(n, ast.JoinedStr):
-            text = ''
-            exprs = []
-            for v in n.values:
-                if isinstance(v, ast.Constant):
-                    text += v.value
-                else:
-                    text += '{}'
-                    exprs.append(v.value)
-            if '=' in text:
-                keys.append((text.split('=')[0], exprs[-1], n.lineno))
+    from sa.rules.C10 import get_state_facts
+    su, gs, consts, exported = get_state_facts(repo)
+    keys = [(k if not k.startswith('ay[') else 'ay[{}]', v[4], v[3]) for k, v in exported.items()]
+    keys = sorted(set(keys), key=lambda x: x[0])
     if len(keys) < 20:
         raise FactError('skoolkit/simutils.py: get_state exports only %d keys' % len(keys))
     zregs = Lit(repo, 'snapshot').ev(mod.assigns['Z80_REGISTERS'][-1])
@@ -138,7 +127,7 @@ def export_rule(ctx, repo, mod):
     z_state = mod.method('Z80', '_set_state')
     s_state = [mod.method('SZX', f) for f in ('_add_zxstz80regs', '_add_zxstspecregs', '_add_zxstayblock')]
     ZOMIT = {'memptr', 'fe'}
-    for key, expr, line in keys:
+    for key, exact, line in keys:
         k = key.lower()
         kk = 'ay[' if k.startswith('ay[') else k
         where = 'skoolkit/simutils.py:%d' % line
@@ -149,14 +138,13 @@ def export_rule(ctx, repo, mod):
             problems.append('SZX writer has no field for it')
         if not in_z and k not in ZOMIT:
             problems.append('Z80 writer has no field for it')
-        # narrowing: the exported expression must not mask/reduce the simulator value
-        for x in ast.walk(expr):
-            if isinstance(x, ast.BinOp) and isinstance(x.op, (ast.BitAnd, ast.Mod, ast.RShift, ast.FloorDiv)) and k not in ('border',):
-                problems.append('exported value is narrowed by `%s`' % ast.unparse(x))
+        # narrowing: folded on values with all bits set (and a clock beyond 2^40) the exported number must be the simulator's
+        if not exact:
+            problems.append('the exported value is narrowed: with every register byte 255 and the wide slots at 2^40+ the key does not carry the full value')
         if problems:
             ctx.violation('get_state ' + key, where, 'state key %s: %s' % (key, '; '.join(problems)))
         else:
-            ctx.ok({'key': key, 'expr': ast.unparse(expr)[:60]})
+            ctx.ok({'key': key})
 
 def run(ctx):
     repo = pyfacts.Repo(ctx.repo_root)
